@@ -1825,7 +1825,16 @@ func (db *DB) dropAll() (func(), error) {
 	// Before we drop, we'll stop the compaction because anyways all the data are going to
 	// be deleted.
 	db.stopCompactions()
+	// Wait for a running value log GC (it fails fast now that writes are blocked) and keep GC
+	// out until we are done: vlog.dropAll restarts the file ids, so a GC which was rewriting
+	// file N would go on to delete the new file N.
+	if db.vlog.garbageCh != nil {
+		db.vlog.garbageCh <- struct{}{}
+	}
 	resume := func() {
+		if db.vlog.garbageCh != nil {
+			<-db.vlog.garbageCh
+		}
 		db.startCompactions()
 		f()
 	}
